@@ -38,6 +38,7 @@ structure Sys where
   gc : GcPc
   running : Bool                -- the collection run has started (files written from now on are young)
   deleted : List Nat            -- ghost: files the collector deleted
+  used : List Nat               -- ghost: every file id a transaction ever registered (names are random and never reused)
 
 inductive Act where
   | txMarker (f : Nat) (old : Bool)   -- register marker for a fresh file f; `old`: by the time of the run it is older than grace
@@ -63,8 +64,10 @@ def ownedBy (s : Sys) (a : Nat) (f : Nat) : Bool :=
 def step (markersFirst : Bool) (univ : List Nat) (s : Sys) (a : Nat) : Act → Option Sys
   | .txMarker f old =>
       match s.tx a, s.files f with
-      | .active, none => some (setFile s f (some { exists_ := false, marker := true, owner := a,
-                                                   oldAtStart := old && !s.running, bornInRun := s.running }))
+      | .active, none =>
+          if s.deleted.contains f || s.used.contains f then none      -- file names are fresh
+          else some { setFile s f (some { exists_ := false, marker := true, owner := a,
+                                          oldAtStart := old && !s.running, bornInRun := s.running }) with used := f :: s.used }
       | _, _ => none
   | .txWrite f =>
       match s.tx a, s.files f with
@@ -112,7 +115,7 @@ def step (markersFirst : Bool) (univ : List Nat) (s : Sys) (a : Nat) : Act → O
 
 /-- initial state: some committed files and some orphans on storage, any of them possibly old; nobody started -/
 def init (files : Nat → Option FileSt) (committed : List Nat) : Sys :=
-  { files := files, committed := committed, tx := fun _ => .active, gc := .start, running := false, deleted := [] }
+  { files := files, committed := committed, tx := fun _ => .active, gc := .start, running := false, deleted := [], used := [] }
 
 /-- well-formed initial storage: pre-existing files belong to no running transaction (owner 0, transactions are ≥ 1),
 carry no marker, and every committed file exists -/
